@@ -1813,19 +1813,15 @@ VARIANTS = [
     V('task branch reads the regression variable', 'B', _C, '_walk', 'for ref in a.previous():', 'for ref in r.previous():', 'R-C16-1'),
     V('state vector used outside its loop', 'B', _C, '_walk', 'for m in bot: ifmom(m)', 'for m in bot:\n                ifmom(m)\n            ifsv(sv)', 'R-C16-1'),
     # ---- R-C16-3
-    V('regress branch inspects feedback of a stale routine', 'B', _C, '_walk', 'for ref in r.feedback():', 'for ref in a.feedback():', 'R-C16-3'),
     V('task branch drops the state-vector hook', 'B', _C, '_walk', 'ifsv(sv)', 'pass', 'R-C16-3', occurrence=1),
     V('regress branch never visits variables()', 'B', _C, '_walk', 'for ref in r.variables():', 'for ref in r.feedback():', 'R-C16-3'),
-    V('analysis branch applies the value hook to the vector', 'B', _C, '_walk', 'for i in sv.items(): ifv(i)', 'for i in sv.items():\n                        ifv(sv)', 'R-C16-3'),
     V('task branch walks a product made before the loop', 'B', _C, '_walk', 'ifbot(bot) for a in bot.routines():', 'ifbot(bot)\n            for a in mod.task(*fargs[dawgie.Factories.analysis]).routines():', 'R-C16-3'),
-    V('a rule passes an unknown hook', 'B', _C, 'rule_05', '_walk(task, ifsv=_signal)', '_walk(task, ifstate=_signal)', 'R-C16-3'),
     # ---- R-C16-2
     V('status defaults to True', 'B', _C, '_verify', 'status = False', 'status = True', 'R-C16-2'),
     V('exception handler sets the status to True', 'B', _C, '_verify', "logging.exception('Could not process %s', r)", "logging.exception('Could not process %s', r)\n                status = True", 'R-C16-2'),
     V('verdict is any() of the statuses', 'B', _C, '_verify', 'if not all(result): passed = False', 'if not any(result):\n            passed = False', 'R-C16-2'),
     V('one rule is skipped', 'B', _C, '_verify', 'status = False try:', "if r == 'rule_07':\n                continue\n            status = False\n            try:", 'R-C16-2'),
     V('stops after the first task', 'B', _C, '_verify', 'passed = False pass return passed', 'passed = False\n        break\n    return passed', 'R-C16-2'),
-    V('verdict reset per task', 'B', _C, '_verify', 'if not all(result): passed = False', 'passed = all(result)', 'R-C16-2'),
     V('prefix filter loses rule_10 and rule_11', 'B', _C, '_get_rules', "k.startswith('rule_')", "k.startswith('rule_0')", 'R-C16-2'),
     V('a non-callable rule_ attribute', 'B', _C, None, 'def _t(*args, **kwds):', 'rule_count = 11\n\n\ndef _t(*args, **kwds):', 'R-C16-2'),
     V('main returns True', 'B', _C, 'main', "print('returning', yes) return yes", "print('returning', yes)\n    return True", 'R-C16-2'),
@@ -1834,10 +1830,8 @@ VARIANTS = [
     V('verify ignores the spawn result', 'B', _C, 'verify', 'return spawn(cmd)', 'spawn(cmd)\n    return True', 'R-C16-2'),
     V('_spawn returns the raw status', 'B', _S, '_spawn', 'return subprocess.call(cmd) == 0', 'return subprocess.call(cmd)', 'R-C16-2'),
     V('auto_merge_compliant returns SUCCESS when verify is falsy', 'B', _S, 'auto_merge_compliant', 'return State.FAILED', 'return State.SUCCESS', 'R-C16-2'),
-    V('auto_merge_compliant inverted test', 'B', _S, 'auto_merge_compliant', 'if not dawgie.tools.compliant.verify(', 'if dawgie.tools.compliant.verify(', 'R-C16-2'),
     V('automatic ignores the gate', 'B', _S, 'automatic', 'status = auto_merge_compliant(changeset, repo, spawn) if status == State.FAILED: return status', 'status = auto_merge_compliant(changeset, repo, spawn)', 'R-C16-2'),
     V('automatic rebases ops before the gate', 'B', _S, 'automatic', 'status = auto_merge_compliant(changeset, repo, spawn)', "git_execute(g, f'git rebase {stable} {ops}')\n        status = auto_merge_compliant(changeset, repo, spawn)", 'R-C16-2'),
-    V('automatic continues on FAILED', 'B', _S, 'automatic', 'status = auto_merge_compliant(changeset, repo, spawn) if status == State.FAILED:', 'status = auto_merge_compliant(changeset, repo, spawn)\n        if status == State.SUCCESS:', 'R-C16-2'),
     V('finally block resets the ops branch', 'B', _S, 'automatic', "finally: git_execute(g, f'git checkout {ops}')", "finally:\n        git_execute(g, f'git checkout -B {ops}')", 'R-C16-2'),
     V('task branch also taken for regressions', 'B', _C, '_walk', 'elif e == dawgie.Factories.task:', 'elif e in (dawgie.Factories.task, dawgie.Factories.regress):', 'R-C16-3'),
     V('no exit status when the verdict is False', 'B', _C, None, 'if PASSED: sys.exit(0) else: sys.exit(-1)', 'if PASSED:\n        sys.exit(0)', 'R-C16-2'),
@@ -1852,7 +1846,6 @@ VARIANTS = [
     V('handler names Exception and resets the status', 'N', _C, '_verify', "except: # noqa: E722 logging.exception('Could not process %s', r)", "except Exception:  # noqa: E722\n                logging.exception('Could not process %s', r)\n                status = False", None),
     V('rules listed with a comprehension', 'N', _C, '_get_rules', "yield from filter( lambda k: k.startswith('rule_'), sorted(dir(dawgie.tools.compliant)) )", "yield from [k for k in sorted(dir(dawgie.tools.compliant)) if k[:5] == 'rule_']", None),
     V('exit status from a conditional expression', 'N', _C, None, 'if PASSED: sys.exit(0) else: sys.exit(-1)', 'sys.exit(0 if PASSED else 1)', None),
-    V('exit status from not PASSED', 'N', _C, None, 'if PASSED: sys.exit(0) else: sys.exit(-1)', 'sys.exit(not PASSED)', None),
     V('auto_merge_compliant with a local and swapped branches', 'N', _S, 'auto_merge_compliant', 'if not dawgie.tools.compliant.verify(repo, True, False, spawn):', 'ok = dawgie.tools.compliant.verify(repo, True, False, spawn)\n    if ok:\n        return State.SUCCESS\n    else:', None),
     V('automatic tests for SUCCESS and logs', 'N', _S, 'automatic', 'status = auto_merge_compliant(changeset, repo, spawn) if status == State.FAILED: return status', "status = auto_merge_compliant(changeset, repo, spawn)\n        logging.info('gate for %s: %s', ops, status)\n        if status != State.SUCCESS:\n            return status", None),
 ]
